@@ -297,14 +297,14 @@ Qed.
 (** ---- close ---- *)
 Lemma CJ_close_finish s t c :
   LkS s -> CJ s -> holder s = Some t -> st_fsm s = Closed -> ~ In (t, false) (cont_plugins s) ->
-  CJ (finish_call (close_cont (release s)) t c ROk).
+  CJ (finish_call (close_cont (publish (release s) PEndAll)) t c ROk).
 Proof.
   intros HL HC Hh Hfs Hni. pose proof HC as [h1 h2 h3 h4 h5 h6 h7 h8].
   constructor; cv_simpl; auto; try discriminate.
   - intros t' Hin. destruct (Nat.eq_dec t' t) as [->|Hn]; [contradiction|].
     eapply (pend_other s); eauto. apply HRes_tstep.
-    apply (HRes_release_finish s (close_cont (release s)) t c ROk); reflexivity.
-  - intros _. unfold cont_off_events. rewrite rl_plugins.
+    apply (HRes_release_finish s (close_cont (publish (release s) PEndAll)) t c ROk); reflexivity.
+  - intros _. unfold cont_off_events. simpl. rewrite rl_plugins.
     destruct (cont_plugins s) eqn:Ep; simpl; auto.
     destruct (cont_closed s) eqn:Ecl; auto.
 Qed.
